@@ -633,6 +633,8 @@ def effective(ecfg, world):
             out["alpha"] = Exact(0.001) if world.arith == "exact" else 0.001
             out["inexact"] = bool(out["dynamic"])
         out["lbib"] = ecfg.get("lbib", False)
+    if world.cfg.get("loss", {}).get("family") == "river":
+        out["inexact"] = True      # a river metric reports doubles; the library averages them in float arithmetic
     if cls == "interval":
         out["interval_length"] = ecfg.get("interval_length", 1000)
         out["storage_length"] = ecfg.get("storage_length", 1000)
